@@ -623,6 +623,24 @@ class Inliner:
                         if owner is not t:
                             remaining.add(qualname_of(t))
         self.transparent = inlined - remaining
+        # a fully inlined helper that nothing else refers to is removed from the analysed tree: its code now lives in its callers,
+        # and whole-module scans (call-site inventories, "who writes X" rules) must not see it twice
+        removed = set()
+        for m in self.prog.modules.values():
+            for node in list(ast.walk(m.tree)):
+                body = getattr(node, "body", None)
+                if not isinstance(body, list):
+                    continue
+                for st in list(body):
+                    if isinstance(st, ast.FunctionDef) and qualname_of(st) in self.transparent:
+                        refs = [n for n in ast.walk(m.tree) if (isinstance(n, ast.Name) and n.id == st.name and isinstance(n.ctx, ast.Load))
+                                or (isinstance(n, ast.Attribute) and n.attr == st.name and isinstance(n.ctx, ast.Load))]
+                        inside = {id(x) for x in ast.walk(st)}
+                        if all(id(r) in inside for r in refs) and len(body) > 1:
+                            body.remove(st)
+                            removed.add(qualname_of(st))
+            relink(m)
+        self.removed = removed
         return self
 
 
